@@ -194,7 +194,7 @@ func ixBodies(pkgs map[string]*pkgInfo) {
 	want := []string{
 		"origins.parseScheme", "origins.parsePort", "origins.fastParseHost", "origins.lastByte",
 		"origins.splitAtCommonSuffix", "headers.TrimOWS", "headers.trimLeftOWS", "headers.trimRightOWS",
-		"headers.cutAtComma", "headers.First", "origins.insert", "util.MakeASCIISet", "util.(*ASCIISet).Contains", "headers.Check", "util.(SortedSet).IndexAfter",
+		"headers.cutAtComma", "headers.First", "origins.insert", "util.MakeASCIISet", "util.(*ASCIISet).Contains", "headers.Check", "util.(SortedSet).IndexAfter", "origins.Parse", "origins.(*Tree).Contains", "origins.(*node).contains",
 	}
 	found := map[string]string{}
 	for _, p := range pkgs {
